@@ -242,6 +242,13 @@ def tag_list(repo, n=None, last=None, head=False):
                 model=sl("tags", sx(repo), sx(n or ""), sx(last or "")))
 
 
+def tag_walk(repo, n):
+    """follow the Link chain of the tag listing from the start with page size n"""
+    return dict(kind="tagwalk", repo=repo, n=str(n),
+                impl=dict(op="follow", path="/v2/%s/tags/list" % repo, query=_q([("n", str(n))])),
+                model=sl("tagwalk", sx(repo), sx(str(n))))
+
+
 def referrers(repo, subject, flt=None):
     return dict(kind="refs", repo=repo, arg=subject, filter=flt or "",
                 impl=_http("GET", "/v2/%s/referrers/%s" % (repo, subject), _q([("artifactType", flt)])),
@@ -253,6 +260,21 @@ def special(op, model="(skip)", **kw):
     st = dict(op=op)
     st.update(kw)
     return dict(kind=op, impl=st, model=model, **{k: v for k, v in kw.items() if k in ("repo",)})
+
+
+def expire_sessions(repo):
+    """every open session of the repository becomes older than the grace period and the age prune runs"""
+    return [dict(kind="uploads", repo=repo, impl=dict(op="uploads", repo=repo, kind="age", secs=100000.0), model="(skip)"),
+            dict(kind="expire", repo=repo, impl=dict(op="uploads", repo=repo, kind="prune_age"), model=sl("expire", sx(repo)))]
+
+
+def prune_count(repo):
+    return dict(kind="prunecount", repo=repo, impl=dict(op="uploads", repo=repo, kind="prune_count"),
+                model=sl("prunecount", sx(repo)))
+
+
+def session_count(repo):
+    return dict(kind="sesscount", repo=repo, impl=dict(op="uploads", repo=repo, kind="len"), model="(skip)")
 
 
 # ---- configuration ----------------------------------------------------------------------
@@ -267,7 +289,8 @@ def mkconf(store="mem", ro=False, push=True, delete=True, blobdelete=True, refer
 def s_cfg(c):
     bb = lambda x: "true" if x else "false"
     return sl("cfg", "dir" if c["store"] == "dir" else "mem", bb(c["ro"]), bb(c["push"]), bb(c["delete"]),
-              bb(c["blobdelete"]), bb(c["referrer"]), str(c["mlimit"]), str(c["rlimit"]))
+              bb(c["blobdelete"]), bb(c["referrer"]), str(c["mlimit"]), str(c["rlimit"]),
+              str(c.get("uploadmax") or 1000))
 
 
 # ---- running the implementation ---------------------------------------------------------------
@@ -403,6 +426,9 @@ def canon_impl(step, res, sids):
     """project an implementation response to the observation compared with the model"""
     if res.get("panic"):
         return dict(panic=True)
+    if step["kind"] == "tagwalk":
+        sub = dict(kind="tags", head=False)
+        return dict(pages=[canon_impl(sub, p, sids) for p in res["par"][0]])
     body = base64.b64decode(res.get("b64", "") or "")
     o = dict(panic=False, status=res["status"], errs=[], digest=_h(res, "Docker-Content-Digest"))
     kind = step["kind"]
@@ -445,6 +471,9 @@ def canon_impl(step, res, sids):
 def canon_model(step, res, sids):
     if res.get("panic"):
         return dict(panic=True)
+    if step["kind"] == "tagwalk":
+        sub = dict(kind="tags", head=False)
+        return dict(pages=[canon_model(sub, p, sids) for p in res["pages"]])
     o = dict(panic=False, status=res["status"], errs=res["errs"], digest=res["digest"])
     kind = step["kind"]
     st = res["status"]
